@@ -80,8 +80,10 @@ def c18(chk, thorough):
         'Decides the termination clause of C18: every loop in every function reachable (direct calls and address-taken '
         'thread entries) from PCA, PLS, CPCA, KMeans, NelderMeadSimplex, the three cross-validation drivers and the MLR '
         'workers has a counter/cap/consuming certificate; self-recursion has a decreasing measure. Loops whose only exits '
-        'are floating-point comparisons are violations. NOT decided: finiteness of the leading components, zero (not NaN) '
-        'variance beyond the rank, the identities on the defined components.')
+        'are floating-point comparisons are violations. One structural condition of "the first component is defined whenever it exists": '
+        '(DG.mean-of-centred) no selection (NIPALS start vector) is driven by the column mean of a matrix that is column-centred -- such means '
+        'are zero by construction. NOT decided: finiteness of the leading components in general, zero (not NaN) variance beyond the rank, '
+        'the identities on the defined components.')
     chk.assumptions = ['thread counts are >= 1 (stated precondition "thread counts 1..8"): loops stepping by nthreads advance',
                        'containers are not aliased under two different variable names inside one loop',
                        'unsigned wrap-around of a counter is not a termination argument and is not modelled']
@@ -90,6 +92,9 @@ def c18(chk, thorough):
     if thorough:
         from . import irscan
         irscan.cross_check(chk, prog, sorted(prog.units))
+    from . import degenerate
+    degenerate.run(chk, prog, {'pls.c', 'pca.c', 'cpca.c', 'upca.c', 'upls.c', 'preprocessing.c', 'epls.c', 'lda.c', 'mlr.c'})
+    chk.floor('DG.mean-of-centred', 1)
     if n < 400:
         chk.broke('only %d loops reachable from the C18 roots, floor 400' % n)
     if chk.extra.get('reachable_functions', 0) < 120:
@@ -381,7 +386,7 @@ def c11(chk, thorough):
     chk.floor('K.tolerance', 5)
     from . import kerneldef
     kerneldef.run(chk, prog)
-    chk.floor('K.definition', 15)
+    chk.floor('K.definition', 16)
     if chk.extra.get('kernels', 0) < 45:
         chk.broke('only %d kernels analysed, floor 45' % chk.extra.get('kernels', 0))
     chk.floor('K.bounds', 300)
@@ -397,7 +402,10 @@ def c12(chk, thorough):
         'allocated extent for square and rectangular shapes under the recorded contracts; (E15) the product kernels only ADD into their '
         'output (derived from their stores), so at every call in matrix.c/vector.c/tensor.c/algebra.c (pseudo-inverse, least squares, '
         'covariance, ...) the output container must have been zeroed on every path since it was last written (ACC.zeroed) -- otherwise the '
-        'solver returns old content + solution. NOT decided: M M^-1 = I, Penrose conditions, A v = lambda v, reconstruction (numeric).')
+        'solver returns old content + solution; (E17) the pseudo-inverse and least-squares routines are read as sequences of kernel calls over '
+        'symbolic matrices: on every path to a return the output is (A\'A)^-1 A\' resp. (X\'X)^-1 X\'y (MX.definition), and MatrixPseudoinversion, '
+        'which returns U S^-1 V\', is only ever handed a Gram matrix (MX.symmetric-arg). NOT decided: M M^-1 = I and the Penrose conditions as '
+        'numeric statements, A v = lambda v, reconstruction.')
     chk.assumptions = ['contracts of lsv/contracts.json', 'LAPACK routines write only within the documented sizes of their arguments']
     prog = load_program(chk, ['vector.c', 'list.c', 'matrix.c', 'tensor.c', 'memwrapper.c', 'numeric.c', 'algebra.c'])
     contractmode.run(chk, prog, contractmode.C12_FUNCS, dom=4 if thorough else 3)
@@ -409,6 +417,10 @@ def c12(chk, thorough):
     from . import accum
     accum.run(chk, prog, {'matrix.c', 'vector.c', 'tensor.c', 'algebra.c'}, {'matrix.c', 'vector.c', 'tensor.c', 'algebra.c'})
     chk.floor('ACC.zeroed', 10)
+    from . import matexpr
+    matexpr.run(chk, prog)
+    chk.floor('MX.definition', 3)
+    chk.floor('MX.symmetric-arg', 1)
     chk.floor('K.bounds', 100)
     chk.floor('G.pivot', 2)
 
